@@ -725,7 +725,7 @@ func c03Endpoint(run *ev.Run) {
 		}
 	}
 	for _, store := range []string{"mem", "sql"} {
-		st, tr := wh.Search(wh.SearchOpts{U: u, Gen: gen, Store: store, Log: la, Extra: []wh.LogCfg{lb}, Alpha: wh.AlphaOpts{MaxN: 4, Forged: true, Shapes: []string{"plain", "ext", "blankext", "junk1"}},
+		st, tr := wh.Search(wh.SearchOpts{U: u, Gen: gen, Store: store, Log: la, Extra: []wh.LogCfg{lb}, Alpha: wh.AlphaOpts{MaxN: 4, Forged: true, Shapes: []string{"plain", "ext", "blankext", "junk1", "stale-own-valid", "stale-own-invalid"}},
 			Workers: workers(), OnStep: mon, Run: run, DoFn: do, SetupFn: setup})
 		run.Add("states", int64(st))
 		run.Add("transitions", tr)
